@@ -7,7 +7,7 @@ use emulator_2a_lib::parser::{AsmParser, Programsize, Stacksize};
 use mc::{Ctx, Json};
 use std::collections::BTreeMap;
 
-const P1: &str = "#! mrasm\n LDSP 0xEF\n LD R0, 0x5A\n ST (0x80), R0\n ST (0xFE), R0\n ST (0xFF), R0\n ST (0xF0), R0\n LD R1, 0x21\n ST (0xF1), R1\n LD R1, 0x87\n ST (0xF2), R1\n LD R1, 0x05\n ST (0xF2), R1\n LD R1, 0xE7\n ST (0xF2), R1\n LD R1, 0x3F\n ST (0xF9), R1\n ST (0xFC), R0\n LD R1, 0x9B\n ST (0xFD), R1\n ST (0xFB), R0\n EI\nLOOP:\n INC R2\n PUSH R2\n JR LOOP\n";
+const P1: &str = "#! mrasm\n LDSP 0xEF\n LD R0, 0x5A\n ST (0x80), R0\n ST (0xFE), R0\n ST (0xFF), R0\n ST (0xF0), R0\n LD R1, 0x21\n ST (0xF1), R1\n LD R1, 0x87\n ST (0xF2), R1\n LD R1, 0x05\n ST (0xF2), R1\n LD R1, 0xE6\n ST (0xF2), R1\n LD R1, 0x3F\n ST (0xF9), R1\n ST (0xFC), R0\n LD R1, 0x9B\n ST (0xFD), R1\n ST (0xFB), R0\n EI\nLOOP:\n INC R2\n PUSH R2\n JR LOOP\n";
 const P2: &str = "#! mrasm\n*STACKSIZE 48\n*PROGRAMSIZE 200\n JR MAIN\n PUSH R0\n LD R0, (0x90)\n INC R0\n ST (0x90), R0\n POP R0\n RETI\nMAIN:\n LDSP 0xE0\n BITS (0xF9), 1\n EI\n LD R0, 0x33\n ST (0xFF), R0\n ST (0xF1), R0\n LD R1, 0xC6\n ST (0xF2), R1\n ST (0xA0), R1\n STOP\n LD R2, 0x77\n ST (0xFE), R2\nEND:\n JR END\n";
 /// no interrupts, no writes to registers without read-back (UART, timer)
 const P3: &str = "#! mrasm\n*STACKSIZE 0\n LDSP 0x70\n LD R0, 0xC3\n ST (0x10), R0\n ST (0xFE), R0\n ST (0xF0), R0\n LD R1, 0x82\n ST (0xF2), R1\n MUL R0, R1\n PUSH R0\n CALL SUB\nL:\n DEC R2\n JR L\nSUB:\n ST (0xFF), R2\n RET\n";
@@ -382,6 +382,14 @@ fn check_node(n: &Node, pr: &Progs) -> Vec<(String, String, String)> {
         if *b.uio_dir() != [false; 3] {
             probs.push(format!("UIO directions {:?}", b.uio_dir()));
         }
+        // not among the things a master reset clears: the board's status registers as far as they are fed by
+        // the physical inputs - jumper and UIO levels, and the interrupt flip-flop / source flag latched from them
+        {
+            let pre = m.bus().board();
+            if b.daisr().bits() != pre.daisr().bits() || (b.dasr().bits() ^ pre.dasr().bits()) & 0xC7 != 0 {
+                probs.push(format!("board status changed: interrupt status {:#06b} -> {:#06b}, status register {:#010b} -> {:#010b}", pre.daisr().bits(), b.daisr().bits(), pre.dasr().bits(), b.dasr().bits()));
+            }
+        }
         if !probs.is_empty() {
             let board_only = probs.iter().all(|p| !p.starts_with("CPU") && !p.starts_with("input"));
             bad.push((
@@ -506,6 +514,20 @@ fn check_node(n: &Node, pr: &Progs) -> Vec<(String, String, String)> {
         }
         // image followed by zeros, limits applied
         let img: Vec<u8> = q.bytes().cloned().collect();
+        // "RAM = the image followed by zeros" whatever the RAM held: the same load on a copy whose every
+        // RAM cell (0x00-0xEF) was non-zero before
+        {
+            let mut d = m.clone();
+            for (i, b) in d.raw_mut().bus_mut().memory_mut().iter_mut().enumerate() {
+                *b = (i as u8) | 0x01;
+            }
+            d.load(q.clone());
+            let ram = d.bus().memory();
+            if let Some(i) = (0..240).find(|&i| ram[i] != img.get(i).cloned().unwrap_or(0)) {
+                bad.push(("load/ram-image".into(), format!("after load of follow-up #{} onto a fully written RAM, cell {:#04x} holds {:#04x} (image followed by zeros: {:#04x})", qi, i, ram[i], img.get(i).cloned().unwrap_or(0)), format!("LoadFollow{}", qi)));
+                continue;
+            }
+        }
         // load = master reset + RAM image + limits and nothing else: rebuild that from public calls
         // and compare whole machines (derived PartialEq: covers the step mode and every later field)
         {
@@ -731,7 +753,7 @@ pub fn run() {
     ctx.set("traces_validated_against_impl", nodes_checked * (2 + FOLLOW.len() as u64));
     ctx.set("evaluations", nodes_checked * (2 + FOLLOW.len() as u64));
     ctx.set("distinct_nontrivial", stats.states);
-    ctx.set("rule", "BFS over histories of 18 events (load of 4 programs, 1/7/40/250 key-clock steps, step-mode toggle, key interrupt, continue, both resets, input and board setters), deduplicated on the derived Debug of the whole Machine; at every distinct node: cpu_reset vs power-on values and untouched parts (whole-Machine equality against a machine rebuilt from public setters for histories without hidden-register writes), master_reset additions, timer/UCR differentials, the board after a master reset answers a 16-operation probe sequence like a new board with the same inputs and raises no interrupt flags; both doors (Machine / raw_mut()) of every reset and wrapper agree; load_raw = master reset + bytes; load == master reset + image + limits and load of 11 follow-up programs (incl. NOSET and empty images) run in lock-step (300 edges) with a new machine; 16 long histories of 1 500 events");
+    ctx.set("rule", "BFS over histories of 18 events (load of 4 programs - the first selects jumper 1 as the board interrupt source with IE -, 1/7/40/250 key-clock steps, step-mode toggle, key interrupt, continue, both resets, input and board setters), deduplicated on the derived Debug of the whole Machine; at every distinct node: cpu_reset vs power-on values and untouched parts (whole-Machine equality against a machine rebuilt from public setters for histories without hidden-register writes), master_reset additions, timer/UCR differentials, the board after a master reset answers a 16-operation probe sequence like a new board with the same inputs and raises no interrupt flags; both doors (Machine / raw_mut()) of every reset and wrapper agree; load_raw = master reset + bytes; master reset leaves the board status fed by physical inputs (interrupt flip-flop / source flag, jumper and UIO bits) alone; load == master reset + image + limits, also onto a copy with every RAM cell non-zero, and load of 11 follow-up programs (incl. NOSET and empty images) run in lock-step (300 edges) with a new machine; 16 long histories of 1 500 events");
     ctx.set("exhaustive", !stats.cap_hit);
     ctx.set("bounds", format!("history depth {}; {} distinct nodes checked", depth, nodes_checked));
     ctx.set("bfs_frontiers", Json::Arr(stats.frontier_sizes.iter().map(|n| Json::Int(*n as i64)).collect()));
